@@ -1,2 +1,23 @@
 /* C12: property-specific environment (C side) */
 void vp_c12_model_limit(uint8_t ok) { ASSERT(ok, "C12 class-level QMap model: capacity exceeded"); ASSUME(ok); }
+/* QHash<QString,...> (the `groups` set of a roster item): only the shared empty representation is needed because the
+   harness never feeds <group/> children; any real hashing is left unmodelled (flagged if reached). */
+#ifdef HAVE_G__ZN9QHashData11shared_nullE
+GT__ZN9QHashData11shared_nullE G__ZN9QHashData11shared_nullE = { 0, 0, {{{{ (uint32_t)-1 }}}}, 0, 0, 4, 0, 0, 0, 1, {{ 0, 0, 0, 0 }} };
+#endif
+/* QDateTime as an opaque word: 0 = null/invalid (the only value the roster/iq code ever produces: retry dates and
+   e2ee timestamps stay unset); conversions from/to text stay unmodelled (flagged if reached) */
+void _ZN9QDateTimeC1Ev(char *self) { *(char**)self = 0; }
+void _ZN9QDateTimeC1ERKS_(char *self, char *o) { *(char**)self = *(char**)o; }
+void _ZN9QDateTimeD1Ev(char *self) { }
+uint8_t _ZNK9QDateTime6isNullEv(char *self) { return *(char**)self == 0; }
+uint8_t _ZNK9QDateTime7isValidEv(char *self) { return *(char**)self != 0; }
+/* number of child elements of a DOM-model element (vp_dom_count of vp_dom.h is not implemented in qt_dom.c) */
+uint32_t vp_c12_dom_nchildren(char *el) { struct dnode *n = DN(el); return n ? n->nch : 0; }
+uint32_t vp_c12_dom_nattrs(char *el) { struct dnode *n = DN(el); return n ? n->nattr : 0; }
+/* Reference counting of QString on destruction is dropped (class-level override of the inline ~QString): string blocks
+   of the model are never recycled, and an over-approximated reference count only makes the copy-on-write paths of the
+   string model copy where Qt would modify in place - value semantics are unchanged. Saves a case split per destructor
+   whenever the block pointer is an if-then-else of several blocks. */
+void _ZN7QStringD2Ev(char *self) { }
+void _ZN7QStringD1Ev(char *self) { }
